@@ -64,12 +64,15 @@ def Darsia.Sig.DType.show : DType → String
   | .u8 => "u8" | .u16 => "u16" | .i64 => "i64" | .f32 => "f32" | .f64 => "f64" | .bool => "bool"
 
 /-- operational call: label VALUES per pixel, element type of the signal; response `<dtype> v ..` -/
-def showOut (r : Except Err (List M)) (d : DType) (sig : List Pixel) : String :=
+def showCall (ms : List M) (d : DType) (sig : List Pixel) : String :=
+  let out := callAll ms (sig.map (·.label)) d (sig.map (·.val))
+  out.1.show ++ " " ++ showRats out.2
+
+/-- `old` = the models before the update: a failing update leaves them in force (`!Err ; <dtype> v ..`) -/
+def showOut (old : List M) (r : Except Err (List M)) (d : DType) (sig : List Pixel) : String :=
   match r with
-  | .error e => e.show
-  | .ok ms =>
-    let out := callAll ms (sig.map (·.label)) d (sig.map (·.val))
-    out.1.show ++ " " ++ showRats out.2
+  | .error e => e.show ++ " ; " ++ showCall old d sig
+  | .ok ms => showCall ms d sig
 
 def pRun : P String := do
   let mode ← P.tok
@@ -79,14 +82,14 @@ def pRun : P String := do
   bar; let u ← pUpd; bar; let sig ← pPix; P.done
   if mode = "comb" then
     match u with
-    | .skip => pure (showOut (.ok ms) d sig)
-    | .all ps => pure (showOut (updateAll ms ps) d sig)
-    | .sub dofs ps => pure (showOut (updateSubset ms dofs ps) d sig)
+    | .skip => pure (showOut ms (.ok ms) d sig)
+    | .all ps => pure (showOut ms (updateAll ms ps) d sig)
+    | .sub dofs ps => pure (showOut ms (updateSubset ms dofs ps) d sig)
   else
     match ms, u with
-    | [m], .skip => pure (showOut (.ok [m]) d sig)
-    | [m], .all ps => pure (showOut ((m.update ps .all).map fun r => [r.1]) d sig)
-    | [m], .sub [(_, spec)] ps => pure (showOut ((m.update ps spec).map fun r => [r.1]) d sig)
+    | [m], .skip => pure (showOut [m] (.ok [m]) d sig)
+    | [m], .all ps => pure (showOut [m] ((m.update ps .all).map fun r => [r.1]) d sig)
+    | [m], .sub [(_, spec)] ps => pure (showOut [m] ((m.update ps spec).map fun r => [r.1]) d sig)
     | _, _ => failure
 
 def pMaskL (n : Nat) : P (Option (List Bool)) := do
@@ -155,6 +158,23 @@ open Darsia.Kern in
 def showPts (l : List Pt) : String := " ; ".intercalate (l.map showRats)
 
 open Darsia.Kern in
+def showState (st : KState) : String :=
+    let w := match st.weights with
+      | none => "W none"
+      | some (key, vals) => s!"W {key.1} ; " ++ showPts key.2 ++ " ; " ++ showRats vals
+    s!"{st.kernel} | {st.numSupports} | " ++ (match st.supports with | some S => showPts S | none => "none") ++ " | "
+      ++ (match st.values with | some V => showRats V | none => "none") ++ " | " ++ w
+
+open Darsia.Kern in
+/-- `kernc`: all ops are executed, failing ones leave the state as it was; `E i:!Err ..` lists the failures -/
+def pKernC : P String := do
+  let k0 ← P.nat
+  let ops ← P.list pKOp
+  P.done
+  let r := runS (init k0) ops 0
+  pure ("E " ++ " ".intercalate (r.2.map fun ie => s!"{ie.1}:{ie.2.show}") ++ " | " ++ showState r.1)
+
+open Darsia.Kern in
 def runShow (st : KState) : List KOp → Nat → String
   | [], _ =>
     let w := match st.weights with
@@ -215,6 +235,7 @@ def pLabelSeq : P String := do
 
 def dispatch : List String → Option String
   | "kern" :: rest => (pKern.run rest).map (·.1)
+  | "kernc" :: rest => (pKernC.run rest).map (·.1)
   | "labelseq" :: rest => (pLabelSeq.run rest).map (·.1)
   | "wrap" :: rest => (pWrap.run rest).map (·.1)
   | "lincomb" :: rest => (pLinComb.run rest).map (·.1)
